@@ -197,13 +197,26 @@ def snapshot(s, scfg, items, step, sid, slow, stats):
             "rows": [cells(r) for r in rows]}
 
 
+def start_session(ctx, fzf, scfg, items, width, height):
+    """Starts fzf in a tmux pane and waits for the first complete list; one retry (the box is shared: a start can stall)."""
+    for attempt in (0, 1):
+        s = tmuxdrv.Session(ctx, fzf, scfg.args(), input_data="".join(i + "\n" for i in items), width=width, height=height)
+        try:
+            s.wait_listening(timeout=45 if attempt == 0 else 150)
+            s.wait_for(lambda tr: any(e["ev"] == "term.list" and not e["reading"] for e in tr), timeout=45 if attempt == 0 else 150,
+                       what="first final list")
+            return s
+        except Infra:
+            s.close()
+            if attempt == 1:
+                raise
+
+
 def run_session(ctx, fzf, sid, scfg, items, steps, width, height, slow=False, stats=None):
     stats = stats if stats is not None else {}
     recs = []
-    s = tmuxdrv.Session(ctx, fzf, scfg.args(), input_data="".join(i + "\n" for i in items), width=width, height=height)
+    s = start_session(ctx, fzf, scfg, items, width, height)
     try:
-        s.wait_listening(timeout=120)
-        s.wait_for(lambda tr: any(e["ev"] == "term.list" and not e["reading"] for e in tr), timeout=120, what="first final list")
         r = snapshot(s, scfg, items, -1, sid, slow, stats)
         if r:
             recs.append(r)
@@ -288,11 +301,9 @@ def e_session(ctx, fzf, sid, group, slow=False):
     scfg = e_cfg(c0["cfg"])
     items = ["".join(x) for x in c0["cfg"]["hlines"]] + ["".join(x) for x in c0["items"]]
     out = []
-    s = tmuxdrv.Session(ctx, fzf, scfg.args(), input_data="".join(i + "\n" for i in items), width=c0["w"], height=c0["h"])
+    s = start_session(ctx, fzf, scfg, items, c0["w"], c0["h"])
     stats = {}
     try:
-        s.wait_listening(timeout=120)
-        s.wait_for(lambda tr: any(e["ev"] == "term.list" and not e["reading"] for e in tr), timeout=120, what="first final list")
         for case in group:
             if pane_size(s) != (case["w"], case["h"]):
                 n_loop = s.count("term.loop")
@@ -499,7 +510,7 @@ def run(ctx):
     ctx.cov["screens_skipped_still_reading"] = stats.get("skipped", 0)
     ctx.cov["screens_by_layout_info"] = shapes
     ctx.cov["resizes"] = sum(1 for j in jobs for s in j[2] if s[0] == "resize")
-    ctx.cov["truncated_rows"] = sum(1 for r in records for row in r["rows"] if len(row) >= r["w"] - 1)
+    ctx.cov["rows_reaching_right_edge"] = sum(1 for r in records for row in r["rows"] if len(row) >= r["w"] - 1)
     ctx.cov["query_longer_than_line"] = sum(1 for r in records if len(r["st"]["input"]) > r["w"] - len(r["cfg"]["prompt"]) - 1)
     ctx.cov["mismatch_verdicts"] = sorted(set(vd.values()))
     for r in records:
